@@ -264,7 +264,18 @@ type LMine wext.Acct
 
 type LMineD wext.AcctD
 
+// EmA holds Rev two embeddings deep, EmB holds it directly: in Go, src.Rev means EmB's (the shallowest one).
+type EmIn struct{ Rev string }
+
+type EmA struct{ EmIn }
+
+type EmB struct{ Rev int }
+
 type SrcF struct {
+	// embedded structs: their members are not candidates of their own; declared first, so that a search that
+	// goes by declaration order meets the deep Rev before the shallow one
+	EmA
+	EmB
 	// a local unnamed struct that reads like the one inside wext.Acct - but its members are local
 	La struct {
 		hidden int
@@ -295,6 +306,7 @@ type DstF struct {
 		More   bool
 	}
 	Guard wext.Lk
+	Rev   string
 }
 
 func CvNIn(n NIn) NIn          { return NIn{X: n.X + 1, Y: n.Y} }
